@@ -36,8 +36,8 @@ PROPS = {
     "C14": {"quick": [J("^vhC14_early_L2$|^vhC14_multi_L2$", samples=4), J("^vhC03_subconc_(2|3)$", preempt=2, samples=1)], "thorough": [J("^vhC14_early_L3$|^vhC14_multi_L2$", preempt=1, samples=6), J("^vhC03_subconc_(2|3)$", preempt=3, samples=1)], "bounds": {}, "assumptions": []},
     "C17": {"quick": [J("^vhC17_.*_L2$", preempt=1, samples=3)], "thorough": [J("^vhC17_.*_L3$", preempt=1, samples=4)], "bounds": {}, "assumptions": []},
     "C02": {"quick": [J("^vhC02_core_(2x2|3x1)$", preempt=0, samples=2), J("^vhC02_core_2x2$", preempt=1, samples=3, maxpaths=600000),
-                      J("^vhC10_conc_|^vhC05_conc_v1$", preempt=0, samples=1, only_msgs="overlapped", maxpaths=600000)],
-            "thorough": [J("^vhC02_core_(2x2|3x1)$", preempt=2, samples=6, maxpaths=5000000), J("^vhC10_conc_|^vhC05_conc_v2$", preempt=1, samples=1, only_msgs="overlapped", maxpaths=5000000)], "bounds": {"threads": 3, "preemptions_quick": 1, "preemptions_thorough": 2}, "assumptions": []},
+                      J("^vhC10_conc(via)?_|^vhC05_conc_v1$", preempt=0, samples=1, only_msgs="overlapped", maxpaths=600000)],
+            "thorough": [J("^vhC02_core_(2x2|3x1)$", preempt=2, samples=6, maxpaths=5000000), J("^vhC10_conc(via)?_|^vhC05_conc_v2$", preempt=1, samples=1, only_msgs="overlapped", maxpaths=5000000)], "bounds": {"threads": 3, "preemptions_quick": 1, "preemptions_thorough": 2}, "assumptions": []},
     "C03": {"quick": [J("^vhC03_(sub_K3|cut_L2)$", samples=4), J("^vhC03_subconc_(2|3)$", preempt=0, samples=1), J("^vhC03_subconc_(2|3)$", preempt=2, samples=1), J("^vhC11_(share|conn)_K4$", samples=2, only_msgs="upstream subscription|source subscription")], "thorough": [J("^vhC03_(sub_K4|cut_L3)$", samples=8), J("^vhC03_subconc_(2|3)$", preempt=0, samples=1), J("^vhC03_subconc_(2|3)$", preempt=3, samples=1), J("^vhC11_(share|conn)_K5$", samples=2, only_msgs="upstream subscription|source subscription")], "bounds": {}, "assumptions": []},
     "C07": {"quick": [J("^vhC07_.*_L2$", samples=4), J("^vhC08_handoff_n(2|5)$", preempt=0, samples=1, only_msgs="lost or duplicated|terminal notification")], "thorough": [J("^vhC07_.*_L3$", samples=8), J("^vhC08_handoff_n(3|5)$", preempt=1, samples=1, only_msgs="lost or duplicated|terminal notification", maxpaths=2000000)], "bounds": {}, "assumptions": []},
     "C09": {"quick": [J("^vhC09_.*_L2$|^vhC09_multi_T2$", samples=4), J("^vhC09_async_n2$", samples=3, timeshim=True)], "thorough": [J("^vhC09_.*_L3$|^vhC09_multi_T3$", samples=8), J("^vhC09_async_n3$", preempt=1, samples=3, timeshim=True)], "bounds": {}, "assumptions": []},
@@ -51,7 +51,7 @@ PROPS = {
                          J("^vhC10_conc_|^vhC05_conc_v2$|^vhC11_conc", preempt=1, races=True, only_kinds=["race", "crash"], samples=1, maxpaths=3000000)], "bounds": {}, "assumptions": []},
     "C15": {"quick": [J("^vhC15_.*_A2$", samples=4)], "thorough": [J("^vhC15_.*_A(2|3)$", samples=8)], "bounds": {}, "assumptions": []},
     "C16": {"quick": [J("^vhC16_.*2$", samples=2, timeshim=True)], "thorough": [J("^vhC16_(delay|interval|timeout|throttle).*3$|^vhC16_sample_n2$", samples=2, timeshim=True)], "bounds": {}, "assumptions": []},
-    "C10": {"quick": [J("^vhC10_seq_.*_K4$", samples=3), J("^vhC10_conc_", preempt=0, samples=1), J("^vhC10_conc_(behavior|unicast|async)", preempt=1, samples=1)], "thorough": [J("^vhC10_seq_.*_K5$", samples=6), J("^vhC10_conc_", preempt=0, samples=1), J("^vhC10_conc_", preempt=2, samples=1, maxpaths=3000000)],
+    "C10": {"quick": [J("^vhC10_seq_.*_K4$", samples=3), J("^vhC10_conc(via)?_", preempt=0, samples=1), J("^vhC10_conc_(behavior|unicast|async)", preempt=1, samples=1)], "thorough": [J("^vhC10_seq_.*_K5$", samples=6), J("^vhC10_conc(via)?_", preempt=0, samples=1), J("^vhC10_conc_", preempt=2, samples=1, maxpaths=3000000)],
             "bounds": {"ops_quick": 4, "ops_thorough": 5, "subscribers": 3}, "assumptions": []},
     "C04": {"quick": [J("^vhC04_(ref_L5|variants_L2|blocking_L2|chain_L2)$", samples=8)], "thorough": [J("^vhC04_(ref_L6|variants_L3|blocking_L3|chain_L3)$", samples=16, xcheck="z3-new", xrate=50)],
             "bounds": {"script_length_quick": 5, "script_length_thorough": 6}, "assumptions": []},
